@@ -53,6 +53,7 @@ var (
 	vrecData = map[string][]byte{}
 	vrecAddr = map[string]string{}
 	vrecDone = map[string]chan struct{}{}
+	vrecTwice = map[string]int{}
 )
 
 func (vrec) CaddyModule() caddy.ModuleInfo {
@@ -76,7 +77,12 @@ func (h *vrec) Handle(cx *layer4.Connection, next layer4.Handler) error {
 	vrecData[h.ID] = got
 	vrecAddr[h.ID] = cx.RemoteAddr().String() + ">" + cx.LocalAddr().String()
 	if ch, ok := vrecDone[h.ID]; ok {
-		close(ch)
+		select {
+		case <-ch:
+			vrecTwice[h.ID]++ // the same recorder ran twice for one connection
+		default:
+			close(ch)
+		}
 	}
 	vrecMu.Unlock()
 	if h.Term {
@@ -181,7 +187,7 @@ func genChain(r *vrng, id int) chainCase {
 		return map[string]any{"handler": "vrec", "id": rid, "take": take, "rsz": r.pick(1, 7, 512, 4096, 32768), "term": term}
 	}
 	// how much the route's own matcher forces into the matching buffer
-	need := r.pick(0, 0, 1, 20, 2048, 2049, 4097, 6000, 8192)
+	need := r.pick(0, 0, 0, 1, 20, 2048, 2049, 4097, 6000, 8192)
 	n := r.intn(4)
 	for i := 0; i < n; i++ {
 		switch r.intn(4) {
@@ -221,7 +227,20 @@ func genChain(r *vrng, id int) chainCase {
 	handlers = append(handlers, rec(-1, true))
 	desc = append(desc, "rec(all)")
 	c.routes = []map[string]any{{"match": []map[string]any{{"vneed": map[string]any{"n": need}}}, "handle": handlers}}
-	c.desc = fmt.Sprintf("payload=%d need=%d chain=%s", plen, need, strings.Join(desc, ","))
+	split2 := ""
+	if len(handlers) > 1 && need == 0 && r.intn(2) == 0 {
+		// (only when the first route is decided at once: a later route that matches may run while an earlier one is still
+		// undecided — the router's documented behaviour)
+		// the same handlers as two consecutive routes: the first is non-terminal, the second has no matcher (matches everything):
+		// what follows a handler is then the router's own continuation for this connection, not the next handler of its route
+		k := 1 + r.intn(len(handlers)-1)
+		c.routes = []map[string]any{
+			{"match": []map[string]any{{"vneed": map[string]any{"n": need}}}, "handle": handlers[:k]},
+			{"handle": handlers[k:]},
+		}
+		split2 = fmt.Sprintf(" routes=%d+%d", k, len(handlers)-k)
+	}
+	c.desc = fmt.Sprintf("payload=%d need=%d chain=%s%s", plen, need, strings.Join(desc, ","), split2)
 	c.chunks = split(r, c.stream)
 	return c
 }
@@ -303,6 +322,14 @@ func runChainConn(c chainCase, h layer4.Handler, fell *bool) (sig, desc string) 
 			return "stream", fmt.Sprintf("recorder %s read %d bytes, expected payload[%d:%d] (%d bytes); first difference at +%d", id, len(got), from, to, len(want), k)
 		}
 	}
+	vrecMu.Lock()
+	for id := range c.expect {
+		if vrecTwice[id] > 0 {
+			vrecMu.Unlock()
+			return "handler-ran-twice", fmt.Sprintf("recorder %s was invoked %d times for one connection", id, vrecTwice[id]+1)
+		}
+	}
+	vrecMu.Unlock()
 	if c.wantAddr != "" && c.recAfterPP != "" {
 		vrecMu.Lock()
 		a := vrecAddr[c.recAfterPP]
